@@ -35,8 +35,6 @@
 
 #include <pthread.h>
 #include <stdlib.h>
-#include <sys/types.h>
-#include <unistd.h>
 
 
 
@@ -57,10 +55,9 @@ list_t              *snoopy_tsrm_threadRepo = &snoopy_tsrm_threadRepo_data;
 /*
  * Set by the prepare handler in the forking thread, cleared by the parent/child handlers. A forked child that
  * enters the library before snoopy_tsrm_atfork_child() has run (from an atfork child handler that was registered
- * before ours, which therefore runs first) still sees it set - with another process ID than the one recorded.
+ * before ours, which therefore runs first) still sees it set - see snoopy_tsrm_atfork_childIfPending().
  */
 static __thread int  snoopy_tsrm_forkInProgress = SNOOPY_FALSE;
-static pid_t         snoopy_tsrm_forkParentPid  = 0;
 
 
 
@@ -71,6 +68,7 @@ void                        snoopy_tsrm_init                      ();
 void                        snoopy_tsrm_atfork_prepare            ();
 void                        snoopy_tsrm_atfork_parent             ();
 void                        snoopy_tsrm_atfork_child              ();
+void                        snoopy_tsrm_atfork_childIfPending     ();
 int                         snoopy_tsrm_doesThreadRepoEntryExist  (snoopy_tsrm_threadId_t threadId, int mutex_already_locked);
 snoopy_tsrm_threadId_t      snoopy_tsrm_getCurrentThreadId        ();
 listNode_t*                 snoopy_tsrm_getCurrentThreadRepoEntry ();
@@ -101,16 +99,7 @@ void snoopy_tsrm_ctor ()
 
     // Forked child whose turn to run snoopy_tsrm_atfork_child() has not come yet: the mutex is still held on behalf
     // of a thread of the parent process and would never be released - do the child-side cleanup now.
-    // (A vfork() child made by the forking thread itself - from an atfork handler of the application - has another
-    // process ID too, but it IS that thread as far as the mutex is concerned, lives in the parent's memory and must not
-    // clean anything there: it can take the recursive mutex, a forked child cannot.)
-    if ((SNOOPY_TRUE == snoopy_tsrm_forkInProgress) && (getpid() != snoopy_tsrm_forkParentPid)) {
-        if (0 == pthread_mutex_trylock(&snoopy_tsrm_threadRepo_mutex)) {
-            pthread_mutex_unlock(&snoopy_tsrm_threadRepo_mutex);
-        } else {
-            snoopy_tsrm_atfork_child();
-        }
-    }
+    snoopy_tsrm_atfork_childIfPending();
 
     // Get my thread id - before mutex, no need for mutex here
     curTid = snoopy_tsrm_getCurrentThreadId();
@@ -216,11 +205,46 @@ void snoopy_tsrm_init ()
  */
 void snoopy_tsrm_atfork_prepare ()
 {
+    // A fork() made by a forked child from an atfork child handler that runs before ours: same situation as in snoopy_tsrm_ctor()
+    snoopy_tsrm_atfork_childIfPending();
+
     // Order matters: a thread that holds the libc guard never asks for the threadRepo mutex
     pthread_mutex_lock(&snoopy_tsrm_libcGuard_mutex);
     pthread_mutex_lock(&snoopy_tsrm_threadRepo_mutex);
-    snoopy_tsrm_forkParentPid  = getpid();
     snoopy_tsrm_forkInProgress = SNOOPY_TRUE;
+}
+
+
+
+/*
+ * snoopy_tsrm_atfork_childIfPending
+ *
+ * Description:
+ *     Does the child-side cleanup if the calling thread is the thread of a forked child in which
+ *     snoopy_tsrm_atfork_child() has not run yet (we were entered from an atfork child handler that
+ *     was registered before ours). Between our prepare and parent/child handlers the forking thread
+ *     owns both (recursive) mutexes: in the parent - and in a vfork() child of that thread, which
+ *     lives in the parent's memory and must not clean up anything there - a trylock therefore
+ *     succeeds; in a forked child it fails, as the owner is a thread ID of the parent process.
+ *     (Process IDs can not tell the two apart: a vfork() child has another one, too, and the first
+ *     process of a new PID namespace is number 1 - and so may be its parent.)
+ *
+ * Params:
+ *     (none)
+ *
+ * Return:
+ *     void
+ */
+void snoopy_tsrm_atfork_childIfPending ()
+{
+    if (SNOOPY_TRUE != snoopy_tsrm_forkInProgress) {
+        return;
+    }
+    if (0 == pthread_mutex_trylock(&snoopy_tsrm_threadRepo_mutex)) {
+        pthread_mutex_unlock(&snoopy_tsrm_threadRepo_mutex);
+        return;
+    }
+    snoopy_tsrm_atfork_child();
 }
 
 
